@@ -497,7 +497,8 @@ class Check:
               "violations": nviol}
         # evidence describes runs against /repo itself; a run against another tree (VERIF_REPO: seeded changes, scratch
         # worktrees) writes its evidence under .work/ so that it can never be mistaken for (or committed as) the real one
-        evdir = os.path.join(VERIF, "evidence") if os.path.realpath(REPO) == "/repo" else os.path.join(WORK, "evidence_other_tree")
+        evdir = (os.path.join(VERIF, "evidence") if (os.path.realpath(REPO) == "/repo" and not REPLAYING)
+                 else os.path.join(WORK, "evidence_other_tree" if not REPLAYING else "evidence_replay"))
         ev["repo"] = os.path.realpath(REPO)
         os.makedirs(evdir, exist_ok=True)
         with open(os.path.join(evdir, self.pid + ".json"), "w") as f:
@@ -550,6 +551,7 @@ def changed_anchors(pid):
 
 
 ESCALATED = []
+REPLAYING = []
 
 
 def parse_args(argv):
@@ -559,6 +561,8 @@ def parse_args(argv):
     ap.add_argument("--tier", default=os.environ.get("VERIF_TIER", "quick"), choices=["quick", "thorough"])
     ap.add_argument("--replay", default=None)
     a = ap.parse_args(argv)
+    if a.replay:
+        REPLAYING.append(a.replay)
     if a.tier == "quick" and not a.replay and os.environ.get("VERIF_NO_ESCALATE") != "1":
         ch = changed_anchors(a.pid)
         if ch:
